@@ -6,8 +6,8 @@ CONSTANTS
   FVals <- F124
   DVals <- D2
   MaxIters = 14
-  Degenerate = FALSE
-  StopOnExactRoot = FALSE
+  Degenerate = TRUE
+  StopOnExactRoot = TRUE
 INVARIANT TypeOK
 INVARIANT Contract
 INVARIANT RootInBracket
